@@ -83,6 +83,7 @@ func (p c14) run(c *core.Ctx) {
 	}
 	gate := &closeGate{all: make(chan struct{}), rel: map[string]chan struct{}{}, instant: map[string]bool{}}
 	failing, instant := 0, 0
+	var typedNil []int // closers whose failing Close returns a typed nil pointer as error
 	for x, k := range closers {
 		name := sc.Nodes[k].DisplayName()
 		fails := c.Rng.Intn(3) == 0
@@ -92,6 +93,9 @@ func (p c14) run(c *core.Ctx) {
 		if fails {
 			sc.Nodes[k].Fails = append(sc.Nodes[k].Fails, "close")
 			failing++
+			if c.Rng.Intn(5) == 0 {
+				typedNil = append(typedNil, k)
+			}
 		}
 		if c.Rng.Intn(4) == 0 {
 			gate.instant[name] = true
@@ -134,6 +138,10 @@ func (p c14) run(c *core.Ctx) {
 	for _, k := range closers {
 		r.Nodes[k].Core().CloseFn = gate.fn
 	}
+	for _, k := range typedNil {
+		r.Nodes[k].Core().TypedNilErr = true
+	}
+	c.Count("closers_failing_with_a_typed_nil_error", len(typedNil))
 	r.Go()
 	c.Count("starts", 1)
 	if r.Outcome() != "ok" {
@@ -255,6 +263,29 @@ func (p c14) run(c *core.Ctx) {
 	if extra := r.Log.Len() - before - len(sample); extra != 0 {
 		c.Fail("", fmt.Sprintf("%d close event(s) were logged after App.Close had returned", extra), failDetail(sc, r, nil))
 		return
+	}
+	// App.Close called again (a deferred Close after a signal handler already closed, say): the statement
+	// is about every call - each closer is invoked once more and the call waits for all of them
+	if c.Index%3 == 0 {
+		before2 := r.Log.Len()
+		r.Guard(func() { r.App.Close() })
+		if r.Panic != nil {
+			c.Fail("", fmt.Sprintf("second App.Close panicked: %v", r.Panic), failDetail(sc, r, nil))
+			return
+		}
+		var evs2 []eventLite
+		for _, e := range r.Log.Events()[before2:] {
+			evs2 = append(evs2, eventLite{e.Kind, e.Who})
+		}
+		for _, name := range allNames {
+			b, e := count(evs2, "close-begin", name), count(evs2, "close-end", name)
+			if b != 1 || e != 1 {
+				c.Fail("", fmt.Sprintf("second call of App.Close: immediately after it returned, closer %s has begun %d time(s) and finished %d time(s) during that call", name, b, e),
+					failDetail(sc, r, map[string]any{"events_of_second_call": fmt.Sprint(evs2)}))
+				return
+			}
+		}
+		c.Count("second_close_calls_checked", 1)
 	}
 	c.Count("closers_checked", nc)
 	c.Count("closers_depending_on_the_application", appDependent)
